@@ -61,7 +61,7 @@ META = {
              "equal matching label sets; grouping (engine-side and pushed-down) depends only on the set of resolved tag indices (groupKey_dedup, rule0_dedup). The model is tied to the code by diffing every result point of generated expressions run through the real "
              "engine on time scales built by the real GetTimescale; direct oracles: def-* (big.Rat definitions), def-*-numeric (outside the exact "
              "domain, relative tolerance), reduce-* (pushed-down vs engine-side evaluation)."),
-    "note": ("Round 5: infinite points are PRESENT points (only NaN is missing): ERat layer of the model, max_is_definition/min_is_definition, stream xeval; DEFECT reported with fix fixes/C27-infinite-points.diff (min_over_time/max_over_time start from +-MaxFloat64, quantile and quantile_over_time multiply an infinite neighbour by a zero weight): the check is red on a tree without it (infinite_points_old_violates). Round 6: quantile / quantile_over_time with q outside [0,1] are generated in the extended-real stream: -Inf/+Inf where the group/window has a point, missing elsewhere (quantile_out_of_range); DEFECT reported with fix fixes/C27-quantile-out-of-range.diff (the engine wrote +-Inf into every timestamp, also where every input point is missing): the check is red on a tree without it. Round 4: avg is inside the two-grid statement (overtime_pushdown_two_grids_avg); rules #2 and #3 have two-grid forms "
+    "note": ("Round 7: two of five fine/coarse scenarios with at least two series contain a series whose only points lie in the hidden points left of the view (topk/bottomk must neither rank nor return it). Round 5: infinite points are PRESENT points (only NaN is missing): ERat layer of the model, max_is_definition/min_is_definition, stream xeval; DEFECT reported with fix fixes/C27-infinite-points.diff (min_over_time/max_over_time start from +-MaxFloat64, quantile and quantile_over_time multiply an infinite neighbour by a zero weight): the check is red on a tree without it (infinite_points_old_violates). Round 6: quantile / quantile_over_time with q outside [0,1] are generated in the extended-real stream: -Inf/+Inf where the group/window has a point, missing elsewhere (quantile_out_of_range); DEFECT reported with fix fixes/C27-quantile-out-of-range.diff (the engine wrote +-Inf into every timestamp, also where every input point is missing): the check is red on a tree without it. Round 4: avg is inside the two-grid statement (overtime_pushdown_two_grids_avg); rules #2 and #3 have two-grid forms "
              "(rule2_two_grids, rule3_two_grids via two_grid_core: the pushed-down point of a group and bucket equals the engine's evaluation on "
              "the one-second grid for sum/min/max compositions; rule #3 without any restriction on events per second); subqueries: "
              "subquery_is_window_of_results (f over the window of the operand's RESULTS with the subquery's own range), the C27-r3-2 mutation is "
